@@ -886,6 +886,22 @@ func main() {
 			stats[k] += v
 		}
 	}
+	if a.Replay == "" {
+		if fu := familyFollowUps(jobs, results, bound["std"], unsafeName); len(fu) > 0 {
+			for i := range fu {
+				fu[i].ID = len(jobs) + 1
+				jobs = append(jobs, fu[i])
+			}
+			st := map[string]int{}
+			for k, v := range runJobs(root, jobs[len(jobs)-len(fu):], "WG", st) {
+				results[k] = v
+			}
+			for k, v := range st {
+				stats[k] += v
+			}
+			stats["family_follow_up_jobs"] += len(fu)
+		}
+	}
 	var binDefined []string
 	var cmdDiffs, cmdAll []cmdlineDiff
 	var sessAll []sessionObs
